@@ -393,7 +393,9 @@ impl ErrorBounds for mode::HalfEven {
         half_ulp.repr.exponent -= 1;
         half_ulp.repr.significand = UBig::from_word((B + 1) / 2).into(); // ceil division
 
-        let incl = f.repr.significand.bit(0);
+        // a tie is rounded to the neighbour whose last digit (at full precision) is even,
+        // so the ends of the interval belong to it iff this number is the even one
+        let incl = (B % 2 == 0 && f.repr.digits() < f.context.precision) || !f.repr.significand.bit(0);
         (half_ulp.clone(), half_ulp, incl, incl)
     }
 }
